@@ -438,8 +438,9 @@ func rowsText(rows [][]qm.Val) string {
 }
 
 type failCase struct {
-	Subset int   `json:"subset"`
-	Stmt   *stmt `json:"stmt"`
+	Subset   int   `json:"subset"`
+	Universe int   `json:"universe"`
+	Stmt     *stmt `json:"stmt"`
 }
 
 func checkCase(c *lib.Ctx, e *env, subset int, s *stmt) {
@@ -460,7 +461,7 @@ func checkCase(c *lib.Ctx, e *env, subset int, s *stmt) {
 			fmt.Fprintf(os.Stderr, "TRIAGE %s | t = %s | %s\n", text, rowsText(model.Tables["t"].Rows), fmt.Sprintf(format, a...))
 			return
 		}
-		c.Fail(class, failCase{subset, s}, "%s | t = %s | %s", text, rowsText(model.Tables["t"].Rows),
+		c.Fail(class, failCase{subset, len(universe), s}, "%s | t = %s | %s", text, rowsText(model.Tables["t"].Rows),
 			fmt.Sprintf(format, a...))
 	}
 	if err := e.reset(subset); err != nil {
@@ -601,13 +602,18 @@ func readsT(q *qm.Q) bool {
 }
 
 func run(c *lib.Ctx) {
+	if !c.Quick() {
+		// thorough: a fifth row (duplicate values in the non-key columns): 32 contents
+		universe = append(universe, []qm.Val{vi(4), vs("y"), vi(20)})
+	}
 	e := newEnv()
 	stmts := statements()
 	c.Set("statements", len(stmts))
-	c.Set("table_contents", 16)
+	nsub := 1 << len(universe)
+	c.Set("table_contents", nsub)
 	k := 0
 	for si, s := range stmts {
-		for subset := 0; subset < 16; subset++ {
+		for subset := 0; subset < nsub; subset++ {
 			k++
 			if k%c.NShards != c.Shard {
 				continue
@@ -627,6 +633,9 @@ func replay(c *lib.Ctx, raw json.RawMessage) {
 	var fc failCase
 	if err := json.Unmarshal(raw, &fc); err != nil {
 		lib.Infra("bad case: %v", err)
+	}
+	if fc.Universe == 5 {
+		universe = append(universe, []qm.Val{vi(4), vs("y"), vi(20)})
 	}
 	checkCase(c, newEnv(), fc.Subset, fc.Stmt)
 }
